@@ -75,7 +75,7 @@ func genSideShow(c *vcore.Ctx, allowSignals bool) []string {
 			s = append(s, "fork", "2", "fork", "1", "exit", "9", "exit", "4")
 		}
 	}
-	if n > 0 && src.Bool(1, 2, "settle") {
+	if n > 0 && src.Bool(3, 4, "settle") {
 		s = append(s, "sleep", "20")
 	}
 	return s
